@@ -93,6 +93,13 @@ def peerSpec (obs : List String) : SpecResult :=
   else if obs.contains "panic" then some ("peer-error-at-most", "panicked on a peer message")
   else none
 
+/-- A data point on its way to a UDF: every one of the `sent` points must come out as a request
+(`written`), whatever its field types. -/
+def udfWriteSpec (sent written : Nat) (obs : List String) : SpecResult :=
+  match peerSpec obs with
+  | some r => some r
+  | none => if written != sent then some ("keeps-processing-after-bad-point", s!"{written} of {sent} points reached the UDF") else none
+
 /-- Task-level liveness. `canaries` of `wantCanaries` good points reached the sink of the task under test,
 `taskErr` = the task ended with an error, `bystander` of `wantAll` points reached the other task's sink.
 `nodePanics` = the case where a node implementation itself panics (then the task MUST report an error, and
